@@ -1,18 +1,29 @@
 import NfcVerif.Model.Retry
 /-!
-# C16 - proofs about the retry primitives and the command programs
+# C16 - proofs about the retry primitives, the command programs and sessions
 -/
+set_option linter.unusedVariables false
 namespace NfcVerif.Retry
 
 /-! ## log bookkeeping -/
 
+
 @[simp] theorem nextAtt_log (w : World) : (nextAtt w).2.log = w.log := by
   unfold nextAtt; split <;> rfl
-@[simp] theorem exec_log (w : World) (c : Cmd) (a : Ans) : (w.exec c a).log = w.log := by
+@[simp] theorem exec_log (w : World) (c : Cmd) (a : Rsp) : (w.exec c a).log = w.log := by
   unfold World.exec World.apply; split <;> rfl
 @[simp] theorem push_log (w : World) (c : Cmd) (l) : (w.push c l).log = w.log ++ [⟨c, l⟩] := rfl
-@[simp] theorem ite_exec_log (b : Bool) (w : World) (c : Cmd) (a : Ans) :
+@[simp] theorem ite_exec_log (b : Bool) (w : World) (c : Cmd) (a : Rsp) :
     (if b = true then w.exec c a else w).log = w.log := by split <;> simp
+@[simp] theorem sense_log (w : World) : w.sense.2.log = w.log := by
+  unfold World.sense; split <;> rfl
+@[simp] theorem reactivate_log (w : World) : w.reactivate.2.log = w.log := by
+  simp [World.reactivate]
+@[simp] theorem stick_log (w : World) (e : Exc) : (w.stick e).log = w.log := by
+  unfold World.stick; split <;> rfl
+@[simp] theorem answered_log (c : Cmd) (a : Rsp) (x) (acc) (w : World) :
+    (answered c a x acc w).2.log = w.log ++ [⟨c, acc ++ [x]⟩] := by
+  unfold answered; split <;> simp
 
 /-- the attempt was answered by the tag (a cut answer is an answer) -/
 def isAnswered : Att × Bool → Bool
@@ -20,17 +31,9 @@ def isAnswered : Att × Bool → Bool
   | (.short _, mute) => !mute
   | (.flt _ _, _) => false
 
-/-- attempts of one primitive call: failures, then at most one further attempt -/
-def InvOK (bound : Nat) (atts : List (Att × Bool)) : Prop :=
-  ∃ fails tail, atts = fails ++ tail ∧ (∀ x ∈ fails, isAnswered x = false) ∧ tail.length ≤ 1
-    ∧ fails.length + tail.length ≤ bound
-
-/-- **the retry loop**: it appends exactly one invocation to the log, whose attempts are
-the earlier ones (`acc`), then unanswered attempts, then at most one more; no more than `n`
-new exchanges. -/
-theorem loop_log (cfg : Cfg) (k : PrimKind) (idm : Bool) (c : Cmd) (a : Ans) :
+theorem loop_log (cfg : Cfg) (k : PrimKind) (idm : Bool) (c : Cmd) (a0 : Ans) :
     ∀ (n : Nat) (last : Option Fault) (acc : List (Att × Bool)) (w : World),
-    ∃ fails tail, (loop cfg k idm c a n last acc w).2.log = w.log ++ [⟨c, acc ++ fails ++ tail⟩]
+    ∃ fails tail, (loop cfg k idm c a0 n last acc w).2.log = w.log ++ [⟨c, acc ++ fails ++ tail⟩]
       ∧ (∀ x ∈ fails, isAnswered x = false) ∧ tail.length ≤ 1 ∧ fails.length + tail.length ≤ n := by
   intro n
   induction n with
@@ -38,14 +41,13 @@ theorem loop_log (cfg : Cfg) (k : PrimKind) (idm : Bool) (c : Cmd) (a : Ans) :
   | succ n ih =>
     intro last acc w
     unfold loop
+    generalize a0.eff (executed acc) = a
     generalize hp : nextAtt w = p
     obtain ⟨att, w1⟩ := p
     have hl : w1.log = w.log := by have := nextAtt_log w; rw [hp] at this; exact this
     cases att with
     | ans =>
       cases a with
-      | ok => exact ⟨[], [(.ans, false)], by simp [hl], by simp, by simp, by simp⟩
-      | refuse e => exact ⟨[], [(.ans, false)], by simp [hl], by simp, by simp, by simp⟩
       | mute =>
         obtain ⟨f, t, h1, h2, h3, h4⟩ := ih (some .timeout) (acc ++ [(.ans, true)]) (w1.exec c .mute)
         refine ⟨(.ans, true) :: f, t, ?_, ?_, h3, by simp; omega⟩
@@ -53,6 +55,9 @@ theorem loop_log (cfg : Cfg) (k : PrimKind) (idm : Bool) (c : Cmd) (a : Ans) :
         · intro x hx; cases hx with
           | head => rfl
           | tail _ h => exact h2 x h
+      | ok => exact ⟨[], [(.ans, false)], by simp [hl], by simp, by simp, by simp⟩
+      | refuse e => exact ⟨[], [(.ans, false)], by simp [hl], by simp, by simp, by simp⟩
+      | nak => exact ⟨[], [(.ans, false)], by simp [hl], by simp, by simp, by simp⟩
     | flt f r =>
       obtain ⟨fl, t, h1, h2, h3, h4⟩ := ih (some f) (acc ++ [(.flt f r, false)]) (if r then w1.exec c a else w1)
       refine ⟨(.flt f r, false) :: fl, t, ?_, ?_, h3, by simp; omega⟩
@@ -75,6 +80,10 @@ theorem loop_log (cfg : Cfg) (k : PrimKind) (idm : Bool) (c : Cmd) (a : Ans) :
       | refuse e =>
         refine ⟨[], [(.short s, false)], ?_, by simp, by simp, by simp⟩
         simp only []; split <;> simp [hl]
+      | nak =>
+        refine ⟨[], [(.short s, false)], ?_, by simp, by simp, by simp⟩
+        simp only []; split <;> simp [hl]
+
 
 /-- a script that starts with `n` failures of class `f` (whether or not the tag got the command) -/
 def startsWith (f : Fault) : Nat → List Att → Prop
@@ -109,14 +118,14 @@ theorem loop_exhausted (cfg : Cfg) (k : PrimKind) (idm : Bool) (c : Cmd) (a : An
       | ans => exact absurd hs (by simp [startsWith])
       | short s => exact absurd hs (by simp [startsWith])
 
-end NfcVerif.Retry
-
-namespace NfcVerif.Retry
-
 /-! ## which exceptions a primitive can raise -/
 
 /-- the script only contains the three error classes the tag layer knows -/
 def Benign (w : World) : Prop := ∀ f r, Att.flt f r ∈ w.script → f.errno ≠ none
+
+/-- the tag object knows when the frontend has lost its target: `clf.exchange` is never called
+without one (`tag.target` is the result of the last `clf.sense`) -/
+def Sound (w : World) : Prop := w.lost = true → w.gone = true
 
 theorem nextAtt_cases (w : World) :
     (w.script = [] ∧ nextAtt w = (.ans, w)) ∨
@@ -136,13 +145,37 @@ theorem benign_next {w w1 : World} {att : Att} (h : nextAtt w = (att, w1)) (hb :
     · intro f r hm; exact hb f r (by rw [hs]; exact List.mem_cons_of_mem _ hm)
     · intro f r hx; exact hb f r (by rw [hs, hx]; exact List.mem_cons_self)
 
-theorem benign_exec {w : World} (c : Cmd) (a : Ans) (hb : Benign w) : Benign (w.exec c a) := by
+theorem benign_exec {w : World} (c : Cmd) (a : Rsp) (hb : Benign w) : Benign (w.exec c a) := by
   unfold World.exec World.apply; split <;> exact hb
 
 theorem benign_push {w : World} (c : Cmd) (l) (hb : Benign w) : Benign (w.push c l) := hb
 
-theorem benign_ite {w : World} (b : Bool) (c : Cmd) (a : Ans) (hb : Benign w) :
+theorem benign_ite {w : World} (b : Bool) (c : Cmd) (a : Rsp) (hb : Benign w) :
     Benign (if b = true then w.exec c a else w) := by split; exact benign_exec c a hb; exact hb
+
+@[simp] theorem sense_script (w : World) : w.sense.2.script = w.script := by
+  unfold World.sense; split <;> rfl
+@[simp] theorem reactivate_script (w : World) : w.reactivate.2.script = w.script := by
+  simp [World.reactivate]
+theorem benign_reactivate {w : World} (hb : Benign w) : Benign w.reactivate.2 := by
+  unfold Benign; rw [reactivate_script]; exact hb
+theorem benign_stick {w : World} (e : Exc) (hb : Benign w) : Benign (w.stick e) := by
+  unfold World.stick; split <;> exact hb
+
+/-! frame: what leaves `lost` / `gone` alone -/
+theorem sound_next {w w1 : World} {att : Att} (h : nextAtt w = (att, w1)) (hs : Sound w) : Sound w1 := by
+  rcases nextAtt_cases w with ⟨_, he⟩ | ⟨x, rest, _, he⟩ <;> (rw [he] at h; cases h; exact hs)
+theorem sound_exec {w : World} (c : Cmd) (a : Rsp) (hs : Sound w) : Sound (w.exec c a) := by
+  unfold World.exec World.apply; split <;> exact hs
+theorem sound_push {w : World} (c : Cmd) (l) (hs : Sound w) : Sound (w.push c l) := hs
+theorem sound_ite {w : World} (b : Bool) (c : Cmd) (a : Rsp) (hs : Sound w) :
+    Sound (if b = true then w.exec c a else w) := by split; exact sound_exec c a hs; exact hs
+theorem sound_stick {w : World} (e : Exc) (hs : Sound w) : Sound (w.stick e) := by
+  unfold World.stick; split <;> exact hs
+/-- the result of `clf.sense` is stored in `tag._target`: afterwards the tag object is right about the target -/
+theorem sound_reactivate (w : World) : Sound w.reactivate.2 := by
+  unfold Sound World.reactivate World.sense
+  split <;> simp
 
 theorem shortExc_repaired (idm : Bool) (k : Nat) : ∃ m, shortExc Cfg.repaired idm k = .tagCmd m := by
   unfold shortExc Cfg.repaired; simp only [if_true]; split <;> exact ⟨_, rfl⟩
@@ -157,21 +190,34 @@ theorem exhausted_ok (k : PrimKind) (f : Fault) (h : k = .t3 ∨ f.errno ≠ non
     · subst h; exact ⟨-1, by simp [Cfg.repaired]⟩
     · exact absurd hf h
 
+theorem answered_safe (c : Cmd) (a : Rsp) (x) (acc) (w : World) :
+    (∀ e, (answered c a x acc w).1 = .error e → ∃ m, e = .tagCmd m)
+    ∧ (Benign w → Benign (answered c a x acc w).2)
+    ∧ (Sound w → Sound (answered c a x acc w).2) := by
+  unfold answered
+  split
+  · exact ⟨(by intro e he; cases he; exact ⟨_, rfl⟩), fun hb => benign_push _ _ hb, fun hs => sound_push _ _ hs⟩
+  · exact ⟨(by intro e he; cases he; exact ⟨_, rfl⟩), fun hb => benign_push _ _ (benign_reactivate hb),
+      fun _ => sound_push _ _ (sound_reactivate w)⟩
+  · exact ⟨(by intro e he; cases he), fun hb => benign_push _ _ hb, fun hs => sound_push _ _ hs⟩
+
 /-- repaired code: the retry loop raises nothing but TagCommandError (Type 3: for every script;
-Type 1/2: as long as `exchange` raises one of the three known classes) and keeps the script benign -/
-theorem loop_safe (k : PrimKind) (idm : Bool) (c : Cmd) (a : Ans) :
+Type 1/2: as long as `exchange` raises one of the three known classes), keeps the script benign
+and the tag object sound -/
+theorem loop_safe (k : PrimKind) (idm : Bool) (c : Cmd) (a0 : Ans) :
     ∀ (n : Nat) (last : Option Fault) (acc : List (Att × Bool)) (w : World),
     (n = 0 → ∃ f, last = some f ∧ (k = .t3 ∨ f.errno ≠ none)) →
     (k = .t3 ∨ Benign w) →
-    (∀ e, (loop Cfg.repaired k idm c a n last acc w).1 = .error e → ∃ m, e = .tagCmd m)
-    ∧ (Benign w → Benign (loop Cfg.repaired k idm c a n last acc w).2) := by
+    (∀ e, (loop Cfg.repaired k idm c a0 n last acc w).1 = .error e → ∃ m, e = .tagCmd m)
+    ∧ (Benign w → Benign (loop Cfg.repaired k idm c a0 n last acc w).2)
+    ∧ (Sound w → Sound (loop Cfg.repaired k idm c a0 n last acc w).2) := by
   intro n
   induction n with
   | zero =>
     intro last acc w h0 _
     obtain ⟨f, hf, hk⟩ := h0 rfl
     subst hf
-    refine ⟨?_, fun hb => hb⟩
+    refine ⟨?_, fun hb => hb, fun hs => hs⟩
     intro e he
     simp only [loop] at he
     obtain ⟨m, hm⟩ := exhausted_ok k f hk
@@ -179,23 +225,39 @@ theorem loop_safe (k : PrimKind) (idm : Bool) (c : Cmd) (a : Ans) :
   | succ n ih =>
     intro last acc w _ hk
     unfold loop
+    generalize a0.eff (executed acc) = a
     generalize hp : nextAtt w = p
     obtain ⟨att, w1⟩ := p
     have hb1 : Benign w → Benign w1 ∧ (∀ f r, att = .flt f r → f.errno ≠ none) := benign_next hp
+    have hs1 : Sound w → Sound w1 := sound_next hp
     have hk1 : k = .t3 ∨ Benign w1 := by
       rcases hk with h | h
       · exact Or.inl h
       · exact Or.inr (hb1 h).1
+    -- an answer that is handed to the caller
+    have hans : ∀ (a : Rsp) (x : Att × Bool),
+        (∀ e, (answered c a x acc (w1.exec c a)).1 = .error e → ∃ m, e = .tagCmd m)
+        ∧ (Benign w → Benign (answered c a x acc (w1.exec c a)).2)
+        ∧ (Sound w → Sound (answered c a x acc (w1.exec c a)).2) := by
+      intro a x
+      obtain ⟨h1, h2, h3⟩ := answered_safe c a x acc (w1.exec c a)
+      exact ⟨h1, fun hb => h2 (benign_exec _ _ (hb1 hb).1), fun hs => h3 (sound_exec _ _ (hs1 hs))⟩
+    have hmute : ∀ (x : Att × Bool),
+        (∀ e, (loop Cfg.repaired k idm c a0 n (some .timeout) (acc ++ [x]) (w1.exec c .mute)).1 = .error e → ∃ m, e = .tagCmd m)
+        ∧ (Benign w → Benign (loop Cfg.repaired k idm c a0 n (some .timeout) (acc ++ [x]) (w1.exec c .mute)).2)
+        ∧ (Sound w → Sound (loop Cfg.repaired k idm c a0 n (some .timeout) (acc ++ [x]) (w1.exec c .mute)).2) := by
+      intro x
+      have := ih (some .timeout) (acc ++ [x]) (w1.exec c .mute)
+        (fun _ => ⟨.timeout, rfl, Or.inr (by simp [Fault.errno])⟩)
+        (hk1.imp id (benign_exec _ _))
+      exact ⟨this.1, fun hb => this.2.1 (benign_exec _ _ (hb1 hb).1), fun hs => this.2.2 (sound_exec _ _ (hs1 hs))⟩
     cases att with
     | ans =>
       cases a with
-      | ok => exact ⟨(by intro e he; cases he), fun hb => benign_push _ _ (benign_exec _ _ (hb1 hb).1)⟩
-      | refuse e0 => exact ⟨(by intro e he; cases he; exact ⟨_, rfl⟩), fun hb => benign_push _ _ (benign_exec _ _ (hb1 hb).1)⟩
-      | mute =>
-        have := ih (some .timeout) (acc ++ [(.ans, true)]) (w1.exec c .mute)
-          (fun _ => ⟨.timeout, rfl, Or.inr (by simp [Fault.errno])⟩)
-          (hk1.imp id (benign_exec _ _))
-        exact ⟨this.1, fun hb => this.2 (benign_exec _ _ (hb1 hb).1)⟩
+      | mute => exact hmute _
+      | ok => exact hans .ok _
+      | refuse e0 => exact hans (.refuse e0) _
+      | nak => exact hans .nak _
     | flt f r =>
       have hf : k = .t3 ∨ f.errno ≠ none := by
         rcases hk with h | h
@@ -203,34 +265,22 @@ theorem loop_safe (k : PrimKind) (idm : Bool) (c : Cmd) (a : Ans) :
         · exact Or.inr ((hb1 h).2 f r rfl)
       have := ih (some f) (acc ++ [(.flt f r, false)]) (if r then w1.exec c a else w1)
         (fun _ => ⟨f, rfl, hf⟩) (hk1.imp id (benign_ite _ _ _))
-      exact ⟨this.1, fun hb => this.2 (benign_ite _ _ _ (hb1 hb).1)⟩
+      exact ⟨this.1, fun hb => this.2.1 (benign_ite _ _ _ (hb1 hb).1), fun hs => this.2.2 (sound_ite _ _ _ (hs1 hs))⟩
     | short s =>
+      have hcut : ∀ (a : Rsp),
+          (∀ e, ((Except.error (shortExc Cfg.repaired idm s) : Py Unit), (w1.exec c a).push c (acc ++ [(.short s, false)])).1 = .error e → ∃ m, e = .tagCmd m)
+          ∧ (Benign w → Benign ((Except.error (shortExc Cfg.repaired idm s) : Py Unit), (w1.exec c a).push c (acc ++ [(.short s, false)])).2)
+          ∧ (Sound w → Sound ((Except.error (shortExc Cfg.repaired idm s) : Py Unit), (w1.exec c a).push c (acc ++ [(.short s, false)])).2) := by
+        intro a
+        refine ⟨?_, fun hb => benign_push _ _ (benign_exec _ _ (hb1 hb).1), fun hs => sound_push _ _ (sound_exec _ _ (hs1 hs))⟩
+        intro e he
+        obtain ⟨m, hm⟩ := shortExc_repaired idm s
+        simp only [hm] at he; cases he; exact ⟨m, rfl⟩
       cases a with
-      | mute =>
-        have := ih (some .timeout) (acc ++ [(.short s, true)]) (w1.exec c .mute)
-          (fun _ => ⟨.timeout, rfl, Or.inr (by simp [Fault.errno])⟩)
-          (hk1.imp id (benign_exec _ _))
-        exact ⟨this.1, fun hb => this.2 (benign_exec _ _ (hb1 hb).1)⟩
-      | ok =>
-        simp only []
-        split
-        · refine ⟨?_, fun hb => benign_push _ _ (benign_exec _ _ (hb1 hb).1)⟩
-          intro e he
-          obtain ⟨m, hm⟩ := shortExc_repaired idm s
-          simp only [hm] at he; cases he; exact ⟨m, rfl⟩
-        · exact ⟨(by intro e he; cases he), fun hb => benign_push _ _ (benign_exec _ _ (hb1 hb).1)⟩
-      | refuse e0 =>
-        simp only []
-        split
-        · refine ⟨?_, fun hb => benign_push _ _ (benign_exec _ _ (hb1 hb).1)⟩
-          intro e he
-          obtain ⟨m, hm⟩ := shortExc_repaired idm s
-          simp only [hm] at he; cases he; exact ⟨m, rfl⟩
-        · exact ⟨(by intro e he; cases he; exact ⟨_, rfl⟩), fun hb => benign_push _ _ (benign_exec _ _ (hb1 hb).1)⟩
-
-end NfcVerif.Retry
-
-namespace NfcVerif.Retry
+      | mute => exact hmute _
+      | ok => simp only []; split; exact hcut _; exact hans .ok _
+      | refuse e0 => simp only []; split; exact hcut _; exact hans (.refuse e0) _
+      | nak => simp only []; split; exact hcut _; exact hans .nak _
 
 /-! ## ISO-DEP exchange -/
 
@@ -259,15 +309,11 @@ theorem depFail_cases (cfg : Cfg) (budget i : Nat) (f : Fault) :
     · right; left; simp
 
 /-- what `depDone` returns -/
-theorem depDone_spec (c : Cmd) (a : Ans) (w : World) (acc) :
+theorem depDone_spec (c : Cmd) (a : Rsp) (w : World) (acc) :
     (∀ e, (depDone c a w acc).1 = .error e → ∃ m, e = .tagCmd m) ∧ (depDone c a w acc).2 = w.push c acc := by
   unfold depDone; cases a <;> simp
 
-/-- **ISO-DEP exchange**: started with frame number `i` (`acc` holds the `i-1` earlier frames) and
-`fuel + i = budget + 4` the loop never runs out of fuel, sends at most `budget + 2` frames in
-total, appends one invocation to the log and raises TagCommandError or - as found only - the
-unknown CommunicationError itself. -/
-theorem dep_spec (cfg : Cfg) (budget : Nat) (c : Cmd) (a : Ans) :
+theorem dep_spec (cfg : Cfg) (budget : Nat) (c : Cmd) (a : Rsp) :
     ∀ (fuel i : Nat) (nak has : Bool) (acc : List (Att × Bool)) (w : World),
     fuel + i = budget + 4 → (nak = true → i ≤ budget + 1) → i ≤ budget + 2 → acc.length + 1 = i →
     (∀ e, (dep cfg budget c a fuel i nak has acc w).1 = .error e →
@@ -300,13 +346,13 @@ theorem dep_spec (cfg : Cfg) (budget : Nat) (c : Cmd) (a : Ans) :
     -- the end of the exchange with an exception `e`
     have stop : ∀ (e0 : Exc) (x : Att × Bool) (w2 : World), w2.log = w.log → (Benign w → Benign w2) →
         ((∃ m, e0 = .tagCmd m) ∨ (cfg.fixT4 = false ∧ ∃ f, e0 = Fault.exc f)) →
-        (∀ e, ((Except.error e0 : Py Unit), w2.push c (acc ++ [x])).1 = .error e →
+        (∀ e, ((Except.error e0 : Py Unit), (w2.push c (acc ++ [x])).stick e0).1 = .error e →
             (∃ m, e = .tagCmd m) ∨ (cfg.fixT4 = false ∧ ∃ f, e = Fault.exc f))
-        ∧ (Benign w → Benign ((Except.error e0 : Py Unit), w2.push c (acc ++ [x])).2)
-        ∧ ∃ more, ((Except.error e0 : Py Unit), w2.push c (acc ++ [x])).2.log = w.log ++ [⟨c, acc ++ more⟩]
+        ∧ (Benign w → Benign ((Except.error e0 : Py Unit), (w2.push c (acc ++ [x])).stick e0).2)
+        ∧ ∃ more, ((Except.error e0 : Py Unit), (w2.push c (acc ++ [x])).stick e0).2.log = w.log ++ [⟨c, acc ++ more⟩]
             ∧ acc.length + more.length ≤ budget + 2 := by
       intro e0 x w2 hl2 hb2 he0
-      refine ⟨by intro e he; cases he; exact he0, fun hb => benign_push _ _ (hb2 hb), [x], by simp [hl2], by simp; omega⟩
+      refine ⟨by intro e he; cases he; exact he0, fun hb => benign_stick _ (benign_push _ _ (hb2 hb)), [x], by simp [hl2], by simp; omega⟩
     have fin : ∀ (x : Att × Bool) (w2 : World), w2.log = w.log → (Benign w → Benign w2) →
         (∀ e, (depDone c a w2 (acc ++ [x])).1 = .error e →
             (∃ m, e = .tagCmd m) ∨ (cfg.fixT4 = false ∧ ∃ f, e = Fault.exc f))
@@ -320,14 +366,14 @@ theorem dep_spec (cfg : Cfg) (budget : Nat) (c : Cmd) (a : Ans) :
       · rw [d2]; simp [hl2]
     have failcase : ∀ (f : Fault) (has' : Bool) (x : Att × Bool) (w2 : World), w2.log = w.log → (Benign w → Benign w2) →
         (∀ e, (match depFail cfg budget i f with
-              | some e => ((Except.error e : Py Unit), w2.push c (acc ++ [x]))
+              | some e => ((Except.error e : Py Unit), (w2.push c (acc ++ [x])).stick e)
               | none => dep cfg budget c a fuel (i+1) true has' (acc ++ [x]) w2).1 = .error e →
             (∃ m, e = .tagCmd m) ∨ (cfg.fixT4 = false ∧ ∃ f, e = Fault.exc f))
         ∧ (Benign w → Benign (match depFail cfg budget i f with
-              | some e => ((Except.error e : Py Unit), w2.push c (acc ++ [x]))
+              | some e => ((Except.error e : Py Unit), (w2.push c (acc ++ [x])).stick e)
               | none => dep cfg budget c a fuel (i+1) true has' (acc ++ [x]) w2).2)
         ∧ ∃ more, (match depFail cfg budget i f with
-              | some e => ((Except.error e : Py Unit), w2.push c (acc ++ [x]))
+              | some e => ((Except.error e : Py Unit), (w2.push c (acc ++ [x])).stick e)
               | none => dep cfg budget c a fuel (i+1) true has' (acc ++ [x]) w2).2.log = w.log ++ [⟨c, acc ++ more⟩]
             ∧ acc.length + more.length ≤ budget + 2 := by
       intro f has' x w2 hl2 hb2
@@ -369,7 +415,7 @@ theorem dep_spec (cfg : Cfg) (budget : Nat) (c : Cmd) (a : Ans) :
         · exact fin _ _ (by simp [hl]) (fun hb => benign_exec _ _ (hb1 hb))
 
 /-- a persisting timeout / transmission error: frames `i .. budget+1` all fail with class `f` -/
-theorem dep_exhausted (cfg : Cfg) (budget : Nat) (c : Cmd) (a : Ans) (f : Fault) (e : Int)
+theorem dep_exhausted (cfg : Cfg) (budget : Nat) (c : Cmd) (a : Rsp) (f : Fault) (e : Int)
     (hf : (f = .timeout ∧ e = 0) ∨ (f = .transmission ∧ e = -1)) :
     ∀ (fuel i : Nat) (nak has : Bool) (acc : List (Att × Bool)) (w : World),
     fuel + i = budget + 4 → i ≤ budget + 1 → startsWith f (budget + 2 - i) w.script →
@@ -408,9 +454,186 @@ theorem dep_exhausted (cfg : Cfg) (budget : Nat) (c : Cmd) (a : Ans) (f : Fault)
             rcases hf with ⟨h, he⟩ | ⟨h, he⟩ <;> subst h <;> subst he <;> simp [depFail, hi]
           rw [hd]
 
-end NfcVerif.Retry
+/-! ### what the exchange leaves in the initiator and in the tag object -/
 
-namespace NfcVerif.Retry
+/-- the fields of the state that only `clf.sense` and the ISO-DEP error memory touch -/
+structure Flags where
+  gone : Bool
+  lost : Bool
+  senses : List Bool
+  sticky : Option Int
+  deriving DecidableEq
+
+def World.flags (w : World) : Flags := ⟨w.gone, w.lost, w.senses, w.sticky⟩
+
+@[simp] theorem nextAtt_flags (w : World) : (nextAtt w).2.flags = w.flags := by
+  unfold nextAtt; split <;> rfl
+@[simp] theorem exec_flags (w : World) (c : Cmd) (a : Rsp) : (w.exec c a).flags = w.flags := by
+  unfold World.exec World.apply; split <;> rfl
+@[simp] theorem apply_flags (w : World) (c : Cmd) : (w.apply c).flags = w.flags := rfl
+@[simp] theorem push_flags (w : World) (c : Cmd) (l) : (w.push c l).flags = w.flags := rfl
+@[simp] theorem ite_exec_flags (b : Bool) (w : World) (c : Cmd) (a : Rsp) :
+    (if b = true then w.exec c a else w).flags = w.flags := by split <;> simp
+
+/-- the answer of the card (not the link) makes the command fail with `n` -/
+def Rsp.refuses (a : Rsp) (n : Int) : Prop := a = .refuse n ∨ (a = .nak ∧ n = 2)
+
+/-- **the error memory of the ISO-DEP initiator**: an exchange that ends normally or with the
+card's own refusal leaves everything but script and logs alone; every other error end is a
+TagCommandError whose reason code is stored in `sticky` (as found: or the unknown
+CommunicationError itself, which is not stored). -/
+theorem dep_flags (cfg : Cfg) (budget : Nat) (c : Cmd) (a : Rsp) :
+    ∀ (fuel i : Nat) (nak has : Bool) (acc : List (Att × Bool)) (w : World),
+    ((dep cfg budget c a fuel i nak has acc w).2.flags = w.flags
+      ∧ ((dep cfg budget c a fuel i nak has acc w).1 = .ok ()
+         ∨ (∃ n, (dep cfg budget c a fuel i nak has acc w).1 = .error (.tagCmd n) ∧ a.refuses n)
+         ∨ (dep cfg budget c a fuel i nak has acc w).1 = .error .outOfFuel
+         ∨ (cfg.fixT4 = false ∧ ∃ f, (dep cfg budget c a fuel i nak has acc w).1 = .error (Fault.exc f))))
+    ∨ (∃ n, (dep cfg budget c a fuel i nak has acc w).1 = .error (.tagCmd n)
+        ∧ (dep cfg budget c a fuel i nak has acc w).2.flags = { w.flags with sticky := some n }) := by
+  intro fuel
+  induction fuel with
+  | zero => intro i nak has acc w; left; exact ⟨rfl, Or.inr (Or.inr (Or.inl rfl))⟩
+  | succ fuel ih =>
+    intro i nak has acc w
+    unfold dep
+    generalize hp : nextAtt w = p
+    obtain ⟨att, w1⟩ := p
+    have hf1 : w1.flags = w.flags := by have := nextAtt_flags w; rw [hp] at this; exact this
+    have done_ : ∀ (w2 : World) (l), w2.flags = w.flags →
+        ((depDone c a w2 l).2.flags = w.flags
+          ∧ ((depDone c a w2 l).1 = .ok ()
+             ∨ (∃ n, (depDone c a w2 l).1 = .error (.tagCmd n) ∧ a.refuses n)
+             ∨ (depDone c a w2 l).1 = .error .outOfFuel
+             ∨ (cfg.fixT4 = false ∧ ∃ f, (depDone c a w2 l).1 = .error (Fault.exc f))))
+        ∨ (∃ n, (depDone c a w2 l).1 = .error (.tagCmd n)
+            ∧ (depDone c a w2 l).2.flags = { w.flags with sticky := some n }) := by
+      intro w2 l h2
+      left
+      unfold depDone
+      cases a with
+      | ok => exact ⟨by simp [h2], Or.inl rfl⟩
+      | mute => exact ⟨by simp [h2], Or.inl rfl⟩
+      | refuse e => exact ⟨by simp [h2], Or.inr (Or.inl ⟨e, rfl, Or.inl rfl⟩)⟩
+      | nak => exact ⟨by simp [h2], Or.inr (Or.inl ⟨2, rfl, Or.inr ⟨rfl, rfl⟩⟩)⟩
+    have failcase : ∀ (f : Fault) (has' : Bool) (x : Att × Bool) (w2 : World), w2.flags = w.flags →
+        (((match depFail cfg budget i f with
+              | some e => ((Except.error e : Py Unit), (w2.push c (acc ++ [x])).stick e)
+              | none => dep cfg budget c a fuel (i+1) true has' (acc ++ [x]) w2).2.flags = w.flags
+          ∧ ((match depFail cfg budget i f with
+              | some e => ((Except.error e : Py Unit), (w2.push c (acc ++ [x])).stick e)
+              | none => dep cfg budget c a fuel (i+1) true has' (acc ++ [x]) w2).1 = .ok ()
+             ∨ (∃ n, (match depFail cfg budget i f with
+              | some e => ((Except.error e : Py Unit), (w2.push c (acc ++ [x])).stick e)
+              | none => dep cfg budget c a fuel (i+1) true has' (acc ++ [x]) w2).1 = .error (.tagCmd n) ∧ a.refuses n)
+             ∨ (match depFail cfg budget i f with
+              | some e => ((Except.error e : Py Unit), (w2.push c (acc ++ [x])).stick e)
+              | none => dep cfg budget c a fuel (i+1) true has' (acc ++ [x]) w2).1 = .error .outOfFuel
+             ∨ (cfg.fixT4 = false ∧ ∃ f', (match depFail cfg budget i f with
+              | some e => ((Except.error e : Py Unit), (w2.push c (acc ++ [x])).stick e)
+              | none => dep cfg budget c a fuel (i+1) true has' (acc ++ [x]) w2).1 = .error (Fault.exc f'))))
+        ∨ (∃ n, (match depFail cfg budget i f with
+              | some e => ((Except.error e : Py Unit), (w2.push c (acc ++ [x])).stick e)
+              | none => dep cfg budget c a fuel (i+1) true has' (acc ++ [x]) w2).1 = .error (.tagCmd n)
+            ∧ (match depFail cfg budget i f with
+              | some e => ((Except.error e : Py Unit), (w2.push c (acc ++ [x])).stick e)
+              | none => dep cfg budget c a fuel (i+1) true has' (acc ++ [x]) w2).2.flags = { w.flags with sticky := some n })) := by
+      intro f has' x w2 h2
+      rcases depFail_cases cfg budget i f with ⟨h, _, _⟩ | ⟨m, h⟩ | ⟨hc, h⟩
+      · rw [h]; simp only []
+        have := ih (i+1) true has' (acc ++ [x]) w2
+        rw [h2] at this; exact this
+      · rw [h]; right; exact ⟨m, rfl, by simp [World.stick, World.flags, World.push] at h2 ⊢; simp [h2]⟩
+      · rw [h]; left
+        refine ⟨?_, Or.inr (Or.inr (Or.inr ⟨hc, f, rfl⟩))⟩
+        cases f <;> simp [World.stick, Fault.exc, h2]
+    cases att with
+    | flt f r =>
+      simp only []
+      exact failcase f _ _ _ (by split <;> simp [hf1])
+    | ans =>
+      simp only []
+      split
+      · exact failcase .timeout _ _ _ hf1
+      · split
+        · split
+          · exact done_ _ _ hf1
+          · have := ih (i+1) false has (acc ++ [(.ans, false)]) w1
+            rw [hf1] at this; exact this
+        · exact done_ _ _ (by simp [hf1])
+    | short s =>
+      simp only []
+      split
+      · exact failcase .timeout _ _ _ hf1
+      · split
+        · split
+          · exact done_ _ _ hf1
+          · have := ih (i+1) false has (acc ++ [(.short s, false)]) w1
+            rw [hf1] at this; exact this
+        · exact done_ _ _ (by simp [hf1])
+
+
+
+
+/-! ## frames of the other primitives -/
+
+
+theorem answered_frame (c : Cmd) (a : Rsp) (x) (acc) (w : World) :
+    (answered c a x acc w).2.sticky = w.sticky := by
+  unfold answered World.reactivate World.sense
+  split <;> (try rfl)
+  split <;> rfl
+
+/-- the retry loop does not touch the ISO-DEP error memory -/
+theorem loop_sticky (cfg : Cfg) (k : PrimKind) (idm : Bool) (c : Cmd) (a0 : Ans) :
+    ∀ (n : Nat) (last : Option Fault) (acc : List (Att × Bool)) (w : World),
+    (loop cfg k idm c a0 n last acc w).2.sticky = w.sticky := by
+  intro n
+  induction n with
+  | zero => intro last acc w; rfl
+  | succ n ih =>
+    intro last acc w
+    unfold loop
+    generalize a0.eff (executed acc) = a
+    generalize hp : nextAtt w = p
+    obtain ⟨att, w1⟩ := p
+    have h1 : w1.sticky = w.sticky := by
+      have := congrArg Flags.sticky (nextAtt_flags w); rw [hp] at this; exact this
+    have hx : ∀ (a : Rsp), (w1.exec c a).sticky = w.sticky := by
+      intro a; have := congrArg Flags.sticky (exec_flags w1 c a); exact this.trans h1
+    cases att with
+    | ans =>
+      cases a with
+      | mute => simp only []; rw [ih]; exact hx _
+      | ok => simp only []; rw [answered_frame]; exact hx _
+      | refuse e => simp only []; rw [answered_frame]; exact hx _
+      | nak => simp only []; rw [answered_frame]; exact hx _
+    | flt f r =>
+      simp only []; rw [ih]; split
+      · exact hx _
+      · exact h1
+    | short s =>
+      cases a with
+      | mute => simp only []; rw [ih]; exact hx _
+      | ok => simp only []; split; exact hx _; rw [answered_frame]; exact hx _
+      | refuse e => simp only []; split; exact hx _; rw [answered_frame]; exact hx _
+      | nak => simp only []; split; exact hx _; rw [answered_frame]; exact hx _
+
+theorem rawx_flags (c : Cmd) (a : Rsp) (w : World) : (rawx c a w).2.flags = w.flags := by
+  unfold rawx
+  generalize hp : nextAtt w = p
+  obtain ⟨att, w1⟩ := p
+  have hf1 : w1.flags = w.flags := by have := nextAtt_flags w; rw [hp] at this; exact this
+  cases att with
+  | flt f r => simp only []; split <;> simp [hf1]
+  | ans => cases a <;> simp [hf1]
+  | short s => cases a <;> simp [hf1]
+
+theorem dep_lostgone (cfg : Cfg) (budget : Nat) (c : Cmd) (a : Rsp) (fuel i : Nat) (nak has : Bool) (acc) (w : World) :
+    (dep cfg budget c a fuel i nak has acc w).2.lost = w.lost ∧ (dep cfg budget c a fuel i nak has acc w).2.gone = w.gone := by
+  rcases dep_flags cfg budget c a fuel i nak has acc w with ⟨h, _⟩ | ⟨n, _, h⟩
+  · exact ⟨congrArg Flags.lost h, congrArg Flags.gone h⟩
+  · exact ⟨congrArg Flags.lost h, congrArg Flags.gone h⟩
 
 /-! ## command programs -/
 
@@ -429,13 +652,15 @@ def Robust (k : PrimKind) : Prop := k = .t3 ∨ k = .t4 ∨ k = .raw
 def PrimSide (p : Prim) (ct : Catch) : Prop :=
   (LoopKind p.kind → 0 < p.budget ∧ p.budget ≤ 3) ∧ (p.kind = .raw → ct = .commErr)
 
-/-- a program over primitives of kinds `S` that raises nothing but TagCommandError by itself -/
+/-- a program over primitives of kinds `S` that raises nothing but TagCommandError by itself
+(a re-activation by `clf.sense` belongs to the Type 2 programs) -/
 def Clean (S : PrimKind → Prop) : Prog → Prop
   | .ret _ => True
   | .crash e => ∃ m, e = .tagCmd m
   | .reraise => True
   | .caseErr z n p => Clean S (z ()) ∧ Clean S (n ()) ∧ Clean S (p ())
   | .call p _ _ ct ok err => S p.kind ∧ PrimSide p ct ∧ Clean S (ok ()) ∧ Clean S (err ())
+  | .sense f g => S .t12 ∧ Clean S (f ()) ∧ Clean S (g ())
 
 def PolClean (S : PrimKind → Prop) : Pol → Prop
   | .goto p => Clean S (p ())
@@ -445,7 +670,7 @@ def Pol.isRaise : Pol → Bool
   | .raise => true
   | _ => false
 
-theorem rawx_safe (c : Cmd) (a : Ans) (w : World) :
+theorem rawx_safe (c : Cmd) (a : Rsp) (w : World) :
     (∀ e, (rawx c a w).1 = .error e → (∃ m, e = .tagCmd m) ∨ ∃ n, Catch.commErr.catches e = some n)
     ∧ (Benign w → Benign (rawx c a w).2) := by
   unfold rawx
@@ -464,19 +689,25 @@ theorem rawx_safe (c : Cmd) (a : Ans) (w : World) :
     cases a with
     | ok => exact ⟨(by intro e he; cases he), fun hb => benign_push _ _ (show Benign (w1.apply c) from hb1 hb)⟩
     | refuse e0 => exact ⟨(by intro e he; cases he; exact Or.inl ⟨_, rfl⟩), fun hb => benign_push _ _ (hb1 hb)⟩
+    | nak => exact ⟨(by intro e he; cases he; exact Or.inl ⟨_, rfl⟩), fun hb => benign_push _ _ (hb1 hb)⟩
     | mute => exact ⟨(by intro e he; cases he; exact Or.inr ⟨_, rfl⟩), fun hb => benign_push _ _ (hb1 hb)⟩
   | short s =>
     cases a with
     | ok => exact ⟨(by intro e he; cases he), fun hb => benign_push _ _ (show Benign (w1.apply c) from hb1 hb)⟩
     | refuse e0 => exact ⟨(by intro e he; cases he; exact Or.inl ⟨_, rfl⟩), fun hb => benign_push _ _ (hb1 hb)⟩
+    | nak => exact ⟨(by intro e he; cases he; exact Or.inl ⟨_, rfl⟩), fun hb => benign_push _ _ (hb1 hb)⟩
     | mute => exact ⟨(by intro e he; cases he; exact Or.inr ⟨_, rfl⟩), fun hb => benign_push _ _ (hb1 hb)⟩
 
-/-- repaired code: what a primitive can raise -/
+theorem sound_of_flags {w w' : World} (hl : w'.lost = w.lost) (hg : w'.gone = w.gone) (hs : Sound w) : Sound w' := by
+  unfold Sound at *; rw [hl, hg]; exact hs
+
+/-- repaired code: what a primitive can raise; the tag object stays sound -/
 theorem prim_safe (p : Prim) (c : Cmd) (a : Ans) (w : World) (hl : LoopKind p.kind → 0 < p.budget)
-    (hs : Robust p.kind ∨ Benign w) :
+    (hs : Robust p.kind ∨ Benign w) (hsd : Sound w) :
     (∀ e, (prim Cfg.repaired p c a w).1 = .error e →
         (∃ m, e = .tagCmd m) ∨ (p.kind = .raw ∧ ∃ n, Catch.commErr.catches e = some n))
-    ∧ (Benign w → Benign (prim Cfg.repaired p c a w).2) := by
+    ∧ (Benign w → Benign (prim Cfg.repaired p c a w).2)
+    ∧ Sound (prim Cfg.repaired p c a w).2 := by
   unfold prim
   cases hk : p.kind with
   | t12 =>
@@ -485,69 +716,101 @@ theorem prim_safe (p : Prim) (c : Cmd) (a : Ans) (w : World) (hl : LoopKind p.ki
       rcases hs with h | h
       · rw [hk] at h; rcases h with h | h | h <;> cases h
       · exact h
-    have := loop_safe .t12 p.idm c a p.budget none [] w
-      (fun h0 => by have := hl (by rw [hk]; exact Or.inl rfl); omega) (Or.inr hb)
-    exact ⟨fun e he => Or.inl (this.1 e he), this.2⟩
+    split
+    · exact ⟨(by intro e he; cases he; exact Or.inl ⟨_, rfl⟩), fun h => h, hsd⟩
+    · rename_i hg
+      split
+      · rename_i hlost; exact absurd (hsd hlost) hg
+      · have := loop_safe .t12 p.idm c a p.budget none [] w
+          (fun h0 => by have := hl (by rw [hk]; exact Or.inl rfl); omega) (Or.inr hb)
+        exact ⟨fun e he => Or.inl (this.1 e he), this.2.1, this.2.2 hsd⟩
   | t3 =>
     simp only []
     have := loop_safe .t3 p.idm c a p.budget none [] w
       (fun h0 => by have := hl (by rw [hk]; exact Or.inr rfl); omega) (Or.inl rfl)
-    exact ⟨fun e he => Or.inl (this.1 e he), this.2⟩
+    exact ⟨fun e he => Or.inl (this.1 e he), this.2.1, this.2.2 hsd⟩
   | t4 =>
     simp only []
-    obtain ⟨h1, h2, _⟩ := dep_spec Cfg.repaired p.budget c a (p.budget + 3) 1 false false [] w
-      (by omega) (by intro h; cases h) (by omega) (by simp)
-    refine ⟨fun e he => ?_, h2⟩
-    rcases h1 e he with h | ⟨h, _⟩
-    · exact Or.inl h
-    · cases h
+    split
+    · exact ⟨(by intro e he; cases he; exact Or.inl ⟨_, rfl⟩), fun h => h, hsd⟩
+    · obtain ⟨h1, h2, _⟩ := dep_spec Cfg.repaired p.budget c (a.eff false) (p.budget + 3) 1 false false [] w
+        (by omega) (by intro h; cases h) (by omega) (by simp)
+      obtain ⟨g1, g2⟩ := dep_lostgone Cfg.repaired p.budget c (a.eff false) (p.budget + 3) 1 false false [] w
+      refine ⟨fun e he => ?_, h2, sound_of_flags g1 g2 hsd⟩
+      rcases h1 e he with h | ⟨h, _⟩
+      · exact Or.inl h
+      · cases h
   | raw =>
     simp only []
-    have := rawx_safe c a w
-    refine ⟨fun e he => ?_, this.2⟩
+    have := rawx_safe c (a.eff false) w
+    have hf := rawx_flags c (a.eff false) w
+    refine ⟨fun e he => ?_, this.2, sound_of_flags (congrArg Flags.lost hf) (congrArg Flags.gone hf) hsd⟩
     rcases this.1 e he with h | h
     · exact Or.inl h
     · exact Or.inr ⟨trivial, h⟩
 
 /-- **a clean program ends with a value or a TagCommandError**: for every fault script when all
 its primitives are robust ones (Type 3, ISO-DEP, presence check), otherwise for every script of
-the three known classes -/
-theorem run_documented (S : PrimKind → Prop) (robust : Prop) (hR : robust → ∀ k, S k → Robust k) :
-    ∀ (P : Prog) (cur : Int) (w : World), Clean S P → (robust ∨ Benign w) →
-    Documented (run Cfg.repaired P cur w).1 := by
+the three known classes; the script stays benign and the tag object sound (so the statement
+carries over to the next operation on the same object) -/
+theorem run_inv (S : PrimKind → Prop) (robust : Prop) (hR : robust → ∀ k, S k → Robust k) :
+    ∀ (P : Prog) (cur : Int) (w : World), Clean S P → (robust ∨ Benign w) → Sound w →
+    Documented (run Cfg.repaired P cur w).1 ∧ (Benign w → Benign (run Cfg.repaired P cur w).2)
+      ∧ Sound (run Cfg.repaired P cur w).2 := by
   intro P
   induction P with
-  | ret v => intro cur w _ _; simp [run, Documented]
-  | crash e => intro cur w hc _; simp only [run, Documented]; exact hc
-  | reraise => intro cur w _ _; simp [run, Documented]
+  | ret v => intro cur w _ _ hs; exact ⟨by simp [run, Documented], fun h => h, hs⟩
+  | crash e => intro cur w hc _ hs; exact ⟨by simp only [run, Documented]; exact hc, fun h => h, hs⟩
+  | reraise => intro cur w _ _ hs; exact ⟨by simp [run, Documented], fun h => h, hs⟩
   | caseErr z n p ihz ihn ihp =>
-    intro cur w hc hw
+    intro cur w hc hw hs
     obtain ⟨hz, hn, hp⟩ := hc
     unfold run
     split
-    · exact ihz () cur w hz hw
+    · exact ihz () cur w hz hw hs
     · split
-      · exact ihn () cur w hn hw
-      · exact ihp () cur w hp hw
+      · exact ihn () cur w hn hw hs
+      · exact ihp () cur w hp hw hs
   | call p c a ct ok err ihok iherr =>
-    intro cur w hc hw
+    intro cur w hc hw hsd
     obtain ⟨hk, ⟨hl, hraw⟩, hok, herr⟩ := hc
     have hs : Robust p.kind ∨ Benign w := hw.imp (fun h => hR h _ hk) id
-    have hps := prim_safe p c a w (fun h => (hl h).1) hs
-    have hw' : robust ∨ Benign (prim Cfg.repaired p c a w).2 := hw.imp id hps.2
+    have hps := prim_safe p c a w (fun h => (hl h).1) hs hsd
+    have hw' : robust ∨ Benign (prim Cfg.repaired p c a w).2 := hw.imp id hps.2.1
     unfold run
     generalize hr : prim Cfg.repaired p c a w = r at hps hw'
     obtain ⟨res, w'⟩ := r
+    have lift : ∀ {o : Outcome × World}, (Documented o.1 ∧ (Benign w' → Benign o.2) ∧ Sound o.2) →
+        (Documented o.1 ∧ (Benign w → Benign o.2) ∧ Sound o.2) :=
+      fun h => ⟨h.1, fun hb => h.2.1 (hps.2.1 hb), h.2.2⟩
     cases res with
-    | ok u => exact ihok () cur w' hok hw'
+    | ok u => exact lift (ihok () cur w' hok hw' hps.2.2)
     | error e =>
       simp only []
       rcases hps.1 e rfl with ⟨m, hm⟩ | ⟨hkr, n, hn⟩
       · split
-        · rename_i n _; exact iherr () n w' herr hw'
-        · simp [Documented, hm]
+        · rename_i n _; exact lift (iherr () n w' herr hw' hps.2.2)
+        · exact ⟨by simp [Documented, hm], hps.2.1, hps.2.2⟩
       · rw [hraw hkr, hn]
-        exact iherr () n w' herr hw'
+        exact lift (iherr () n w' herr hw' hps.2.2)
+  | sense f g ihf ihg =>
+    intro cur w hc hw hsd
+    obtain ⟨_, hf, hg⟩ := hc
+    have hw' : robust ∨ Benign w.reactivate.2 := hw.imp id benign_reactivate
+    have lift : ∀ {o : Outcome × World}, (Documented o.1 ∧ (Benign w.reactivate.2 → Benign o.2) ∧ Sound o.2) →
+        (Documented o.1 ∧ (Benign w → Benign o.2) ∧ Sound o.2) :=
+      fun h => ⟨h.1, fun hb => h.2.1 (benign_reactivate hb), h.2.2⟩
+    unfold run
+    split
+    · exact lift (ihf () cur _ hf hw' (sound_reactivate w))
+    · exact lift (ihg () cur _ hg hw' (sound_reactivate w))
+
+theorem run_documented (S : PrimKind → Prop) (robust : Prop) (hR : robust → ∀ k, S k → Robust k)
+    (P : Prog) (cur : Int) (w : World) (hc : Clean S P) (hw : robust ∨ Benign w) (hs : Sound w) :
+    Documented (run Cfg.repaired P cur w).1 := (run_inv S robust hR P cur w hc hw hs).1
+
+
+
 
 theorem polProg_clean (S) (pol : Pol) (next : Unit → Prog) (hpol : PolClean S pol) (hn : Clean S (next ())) :
     Clean S (polProg pol next ()) := by
@@ -598,6 +861,11 @@ theorem chain_clean_raw (S : PrimKind → Prop) (n : Nat) (b : Bool) (v : Val)
 
 /-! ## log invariant: answered attempts are last -/
 
+/-- attempts of one primitive call: failures, then at most one further attempt -/
+def InvOK (bound : Nat) (atts : List (Att × Bool)) : Prop :=
+  ∃ fails tail, atts = fails ++ tail ∧ (∀ x ∈ fails, isAnswered x = false) ∧ tail.length ≤ 1
+    ∧ fails.length + tail.length ≤ bound
+
 def LogOK (log : List Inv) : Prop := ∀ inv ∈ log, InvOK 3 inv.atts
 
 theorem prim_log (cfg : Cfg) (p : Prim) (c : Cmd) (a : Ans) (w : World) (hk : LoopKind p.kind) (hb3 : p.budget ≤ 3)
@@ -612,7 +880,14 @@ theorem prim_log (cfg : Cfg) (p : Prim) (c : Cmd) (a : Ans) (w : World) (hk : Lo
     · simp at h; subst h
       exact ⟨f, t, by simp, h2, h3, by omega⟩
   unfold prim
-  rcases hk with h | h <;> rw [h] <;> exact key _
+  rcases hk with h | h <;> rw [h] <;> simp only []
+  · split
+    · exact hw
+    · split
+      · exact hw
+      · exact key _
+  · exact key _
+
 
 theorem run_log (cfg : Cfg) (S : PrimKind → Prop) (hS : ∀ k, S k → LoopKind k) :
     ∀ (P : Prog) (cur : Int) (w : World), Clean S P → LogOK w.log → LogOK (run cfg P cur w).2.log := by
@@ -644,10 +919,20 @@ theorem run_log (cfg : Cfg) (S : PrimKind → Prop) (hS : ∀ k, S k → LoopKin
       split
       · rename_i n _; exact iherr () n w' herr hl'
       · exact hl'
+  | sense f g ihf ihg =>
+    intro cur w hc hw
+    obtain ⟨_, hf, hg⟩ := hc
+    unfold run
+    split
+    · exact ihf () cur _ hf (by rw [reactivate_log]; exact hw)
+    · exact ihg () cur _ hg (by rw [reactivate_log]; exact hw)
 
 /-! ## the programs of the operations are clean -/
 
 theorem fixF17_rep : Cfg.repaired.fixF17 = true := rfl
+
+theorem sense_clean (S : PrimKind → Prop) (f g : Unit → Prog) (h12 : S .t12) (hf : Clean S (f ())) (hg : Clean S (g ())) :
+    Clean S (.sense f g) := ⟨h12, hf, hg⟩
 
 macro "clean_tac" : tactic => `(tactic| repeat' (first
   | exact trivial
@@ -660,6 +945,7 @@ macro "clean_tac" : tactic => `(tactic| repeat' (first
   | apply chain_clean_t4
   | apply chain_clean_raw
   | apply chain_clean_loop
+  | apply sense_clean
   | (show Clean _ _; dsimp only [fin])
   ))
 
@@ -684,7 +970,7 @@ theorem prog_clean (tlv : Bool) (fam op : String) (l : Phases) (v : Val) (nret :
 /-- the Type 3 and Type 4 families only use robust primitives -/
 theorem prog_clean_robust (tlv : Bool) (fam op : String) (l : Phases) (v : Val) (nret : Nat) (P : Prog)
     (h : prog Cfg.repaired tlv fam op l v nret = some P)
-    (hf : fam = "t3" ∨ fam = "t3std" ∨ fam = "lite" ∨ fam = "t4") : Clean Robust P := by
+    (hf : fam = "t3" ∨ fam = "t3p" ∨ fam = "t3std" ∨ fam = "lite" ∨ fam = "lites" ∨ fam = "t4") : Clean Robust P := by
   cases tlv <;>
   (unfold prog at h
    simp only [fixF17_rep, if_true, Bool.false_eq_true, if_false] at h
@@ -692,11 +978,22 @@ theorem prog_clean_robust (tlv : Bool) (fam op : String) (l : Phases) (v : Val) 
      | (exfalso; revert hf; decide)
      | (cases h; clean_tac))
 
+/-- the Type 4 family only uses the ISO-DEP exchange, except for the presence check -/
+theorem prog_clean_t4 (tlv : Bool) (fam op : String) (l : Phases) (v : Val) (nret : Nat) (P : Prog)
+    (h : prog Cfg.repaired tlv fam op l v nret = some P) (hf : fam = "t4") (hp : op ≠ "present") :
+    Clean (fun k => k = .t4) P := by
+  cases tlv <;>
+  (unfold prog at h
+   simp only [fixF17_rep, if_true, Bool.false_eq_true, if_false] at h
+   split at h <;> first
+     | exact absurd rfl hp
+     | (exfalso; revert hf; decide)
+     | (cases h; clean_tac))
+
 theorem side_t3p (b : Bool) (ct : Catch) : PrimSide (t3p b) ct :=
   ⟨fun _ => ⟨(by show 0 < 3; decide), (by show 3 ≤ 3; decide)⟩, fun h => by cases h⟩
 
-end NfcVerif.Retry
-namespace NfcVerif.Retry
+
 section t3format
 variable (S : PrimKind → Prop) (h3 : S .t3) (cfg : Cfg) (t : T3Tag)
 include h3
@@ -755,5 +1052,241 @@ theorem t3Search_clean (wipe : Bool) : ∀ fuel lo hi, Clean S (t3Search cfg t w
 theorem t3Format_clean (wipe : Bool) : Clean S (t3Format cfg t wipe) :=
   ⟨h3, side_t3p _ _, t3Search_clean S h3 cfg t wipe 17 0 0x10000, trivial⟩
 end t3format
+
+
+
+/-! ## programs that do not re-activate the tag by themselves -/
+
+/-- no `clf.sense` is reached as long as every command fails -/
+def Quiet : Prog → Prop
+  | .ret _ => True
+  | .crash _ => True
+  | .reraise => True
+  | .caseErr z n p => Quiet (z ()) ∧ Quiet (n ()) ∧ Quiet (p ())
+  | .call _ _ _ _ _ err => Quiet (err ())
+  | .sense _ _ => False
+
+def PolQuiet : Pol → Prop
+  | .goto p => Quiet (p ())
+  | _ => True
+
+theorem polProg_quiet (pol : Pol) (next : Unit → Prog) (hpol : PolQuiet pol) (hn : Quiet (next ())) :
+    Quiet (polProg pol next ()) := by
+  cases pol <;> simp_all [polProg, Quiet, PolQuiet]
+
+theorem chain_quiet (cfg : Cfg) (p : Prim) (ct : Catch) (pol : Pol) (hpol : PolQuiet pol) :
+    ∀ (ss : List Step) (fin : Unit → Prog), Quiet (fin ()) → Quiet (chain cfg p ct pol ss fin) := by
+  intro ss
+  induction ss with
+  | nil => intro fin h; simpa [chain] using h
+  | cons s ss ih =>
+    intro fin h
+    have hn := ih fin h
+    unfold chain
+    simp only []
+    split
+    · refine ⟨hn, ?_, ?_⟩ <;> (split; exact polProg_quiet pol _ hpol hn; trivial)
+    · exact polProg_quiet pol _ hpol hn
+
+macro "quiet_tac" : tactic => `(tactic| repeat' (first
+  | exact trivial
+  | apply chain_quiet
+  | (show Quiet _; dsimp only [fin])
+  ))
+
+/-- every operation except the two that re-activate the tag themselves (`protect` with a password on
+Ultralight C and NTAG21x) reaches `clf.sense` only through an answered READ -/
+theorem prog_quiet (cfg : Cfg) (tlv : Bool) (fam op : String) (l : Phases) (v : Val) (nret : Nat) (P : Prog)
+    (h : prog cfg tlv fam op l v nret = some P) (hop : op ≠ "protectpw") : Quiet P := by
+  cases tlv <;> cases hc : cfg.fixF17 <;>
+  (unfold prog at h
+   simp only [hc, if_true, Bool.false_eq_true, if_false] at h
+   split at h <;> first
+     | exact absurd rfl hop
+     | (cases h; quiet_tac))
+
+/-- the Type 1 / Type 2 families only use `transceive` -/
+theorem prog_clean_t12 (tlv : Bool) (fam op : String) (l : Phases) (v : Val) (nret : Nat) (P : Prog)
+    (h : prog Cfg.repaired tlv fam op l v nret = some P)
+    (hf : fam = "t1" ∨ fam = "t2" ∨ fam = "t2nxp" ∨ fam = "t2ulc" ∨ fam = "t2ntag" ∨ fam = "t2i2c") :
+    Clean (fun k => k = .t12) P := by
+  cases tlv <;>
+  (unfold prog at h
+   simp only [fixF17_rep, if_true, Bool.false_eq_true, if_false] at h
+   split at h <;> first
+     | (exfalso; revert hf; decide)
+     | (cases h; clean_tac))
+
+
+/-! ## what the tag object remembers: nothing is sent after an unrecoverable error -/
+
+/-- ISO-DEP: once a reason code is stored every command is refused with it, no frame is sent -/
+theorem prim_t4_sticky (cfg : Cfg) (p : Prim) (c : Cmd) (a : Ans) (w : World) (e : Int)
+    (hk : p.kind = .t4) (hs : w.sticky = some e) : prim cfg p c a w = (.error (.tagCmd e), w) := by
+  unfold prim; rw [hk]; simp only [hs]
+
+/-- Type 2: once the re-activation has failed every command ends with TIMEOUT_ERROR, nothing is sent -/
+theorem prim_t12_gone (cfg : Cfg) (p : Prim) (c : Cmd) (a : Ans) (w : World)
+    (hk : p.kind = .t12) (hg : w.gone = true) : prim cfg p c a w = (.error (.tagCmd 0), w) := by
+  unfold prim; rw [hk]; simp only [hg, if_true]
+
+/-- **an ISO-DEP command that fails for any reason but the card's own refusal is remembered**:
+`prim` on a fresh initiator either leaves the error memory alone (normal end, status word error of the
+card; as found also the unknown CommunicationError that is raised as it is) or ends with
+TagCommandError(n) and stores `n` -/
+theorem prim_t4_remembers (cfg : Cfg) (p : Prim) (c : Cmd) (a : Ans) (w : World)
+    (hk : p.kind = .t4) (hs : w.sticky = none) :
+    ((prim cfg p c a w).2.sticky = none
+      ∧ ((prim cfg p c a w).1 = .ok ()
+         ∨ (∃ n, (prim cfg p c a w).1 = .error (.tagCmd n) ∧ (a.eff false).refuses n)
+         ∨ (cfg.fixT4 = false ∧ ∃ f, (prim cfg p c a w).1 = .error (Fault.exc f))))
+    ∨ (∃ n, (prim cfg p c a w).1 = .error (.tagCmd n) ∧ (prim cfg p c a w).2.sticky = some n) := by
+  unfold prim; rw [hk]; simp only [hs]
+  have hfuel := (dep_spec cfg p.budget c (a.eff false) (p.budget + 3) 1 false false [] w
+    (by omega) (by intro h; cases h) (by omega) (by simp)).1
+  rcases dep_flags cfg p.budget c (a.eff false) (p.budget + 3) 1 false false [] w with ⟨h, hr⟩ | ⟨n, h1, h2⟩
+  · left
+    refine ⟨by have := congrArg Flags.sticky h; simpa [World.flags, hs] using this, ?_⟩
+    rcases hr with h | h | h | h
+    · exact Or.inl h
+    · exact Or.inr (Or.inl h)
+    · rcases hfuel _ h with ⟨m, hm⟩ | ⟨_, f, hf⟩
+      · cases hm
+      · cases f <;> cases hf
+    · exact Or.inr (Or.inr h)
+  · right; exact ⟨n, h1, by have := congrArg Flags.sticky h2; simpa [World.flags] using this⟩
+
+/-- **silence**: when every primitive call of the kinds `S` fails in state `w` without changing it,
+a quiet program over `S` leaves `w` as it is - no exchange, no log entry, nothing executed by the tag -/
+theorem run_dead (cfg : Cfg) (S : PrimKind → Prop) (w : World)
+    (hd : ∀ (p : Prim) (c : Cmd) (a : Ans), S p.kind → ∃ e, prim cfg p c a w = (.error e, w)) :
+    ∀ (P : Prog) (cur : Int), Clean S P → Quiet P → (run cfg P cur w).2 = w := by
+  intro P
+  induction P with
+  | ret v => intro cur _ _; rfl
+  | crash e => intro cur _ _; rfl
+  | reraise => intro cur _ _; rfl
+  | caseErr z n p ihz ihn ihp =>
+    intro cur hc hq
+    unfold run
+    split
+    · exact ihz () cur hc.1 hq.1
+    · split
+      · exact ihn () cur hc.2.1 hq.2.1
+      · exact ihp () cur hc.2.2 hq.2.2
+  | call p c a ct ok err ihok iherr =>
+    intro cur hc hq
+    obtain ⟨e, he⟩ := hd p c a hc.1
+    unfold run
+    rw [he]
+    simp only []
+    split
+    · rename_i n _; exact iherr () n hc.2.2.2 hq
+    · rfl
+  | sense f g ihf ihg => intro cur _ hq; exact absurd hq (by simp [Quiet])
+
+/-- a program without `clf.sense` is quiet -/
+theorem quiet_of_t4 : ∀ (P : Prog), Clean (fun k => k = .t4) P → Quiet P := by
+  intro P
+  induction P with
+  | ret v => intro _; trivial
+  | crash e => intro _; trivial
+  | reraise => intro _; trivial
+  | caseErr z n p ihz ihn ihp => intro hc; exact ⟨ihz () hc.1, ihn () hc.2.1, ihp () hc.2.2⟩
+  | call p c a ct ok err ihok iherr => intro hc; exact iherr () hc.2.2.2
+  | sense f g ihf ihg => intro hc; exact absurd hc.1 (by decide)
+
+/-- **ISO-DEP: no further frame after an unrecoverable error** -/
+theorem run_t4_sticky (cfg : Cfg) (P : Prog) (cur : Int) (w : World) (e : Int)
+    (hc : Clean (fun k => k = .t4) P) (hs : w.sticky = some e) : (run cfg P cur w).2 = w :=
+  run_dead cfg _ w (fun p c a hk => ⟨_, prim_t4_sticky cfg p c a w e hk hs⟩) P cur hc (quiet_of_t4 P hc)
+
+/-- **Type 2: no exchange once the target is gone** -/
+theorem run_t12_gone (cfg : Cfg) (P : Prog) (cur : Int) (w : World)
+    (hc : Clean (fun k => k = .t12) P) (hq : Quiet P) (hg : w.gone = true) : (run cfg P cur w).2 = w :=
+  run_dead cfg _ w (fun p c a hk => ⟨_, prim_t12_gone cfg p c a w hk hg⟩) P cur hc hq
+
+/-! ## sessions -/
+
+theorem stepOp_inv (S : PrimKind → Prop) (robust : Prop) (hR : robust → ∀ k, S k → Robust k)
+    (read : Prog) (o : SOp) (cached : Bool) (w : World)
+    (hr : Clean S read) (hf : Clean S o.fresh) (hc : Clean S o.cached) (hw : robust ∨ Benign w) (hs : Sound w) :
+    Documented (stepOp Cfg.repaired read o cached w).1
+      ∧ (robust ∨ Benign (stepOp Cfg.repaired read o cached w).2.2)
+      ∧ Sound (stepOp Cfg.repaired read o cached w).2.2 := by
+  unfold stepOp
+  split
+  · have h1 := run_inv S robust hR read 0 w hr hw hs
+    generalize run Cfg.repaired read 0 w = r at h1
+    obtain ⟨out, w1⟩ := r
+    have hw1 : robust ∨ Benign w1 := hw.imp id h1.2.1
+    split
+    · rename_i heq
+      cases heq
+      have h2 := run_inv S robust hR o.cached 0 w1 hc hw1 h1.2.2
+      exact ⟨h2.1, hw1.imp id h2.2.1, h2.2.2⟩
+    · rename_i heq; cases heq; exact ⟨trivial, hw1, h1.2.2⟩
+    · rename_i heq; cases heq; exact ⟨h1.1, hw1, h1.2.2⟩
+  · have h2 := run_inv S robust hR (if cached = true then o.cached else o.fresh) 0 w
+      (by split; exact hc; exact hf) hw hs
+    exact ⟨h2.1, hw.imp id h2.2.1, h2.2.2⟩
+
+/-- **every operation of a session ends with a value or a TagCommandError** -/
+theorem session_documented (S : PrimKind → Prop) (robust : Prop) (hR : robust → ∀ k, S k → Robust k)
+    (read : Prog) (hr : Clean S read) :
+    ∀ (ops : List SOp) (cached : Bool) (w : World),
+    (∀ o ∈ ops, Clean S o.fresh ∧ Clean S o.cached) → (robust ∨ Benign w) → Sound w →
+    ∀ out ∈ (session Cfg.repaired read ops cached w).1, Documented out := by
+  intro ops
+  induction ops with
+  | nil => intro cached w _ _ _ out hm; simp [session] at hm
+  | cons o os ih =>
+    intro cached w hops hw hs out hm
+    have ho := hops o List.mem_cons_self
+    have h1 := stepOp_inv S robust hR read o cached w hr ho.1 ho.2 hw hs
+    unfold session at hm
+    simp only [List.mem_cons] at hm
+    rcases hm with hm | hm
+    · rw [hm]; exact h1.1
+    · exact ih _ _ (fun o' hm' => hops o' (List.mem_cons_of_mem _ hm')) h1.2.1 h1.2.2 out hm
+
+theorem stepOp_dead (cfg : Cfg) (S : PrimKind → Prop) (w : World)
+    (hd : ∀ (p : Prim) (c : Cmd) (a : Ans), S p.kind → ∃ e, prim cfg p c a w = (.error e, w))
+    (read : Prog) (o : SOp) (cached : Bool)
+    (hr : Clean S read ∧ Quiet read) (hf : Clean S o.fresh ∧ Quiet o.fresh) (hc : Clean S o.cached ∧ Quiet o.cached) :
+    (stepOp cfg read o cached w).2.2 = w := by
+  unfold stepOp
+  split
+  · have h1 := run_dead cfg S w hd read 0 hr.1 hr.2
+    generalize run cfg read 0 w = r at h1
+    obtain ⟨out, w1⟩ := r
+    simp only [] at h1
+    subst h1
+    split
+    · rename_i heq; cases heq; exact run_dead cfg S _ hd o.cached 0 hc.1 hc.2
+    · rename_i heq; cases heq; rfl
+    · rename_i heq; cases heq; rfl
+  · split
+    · exact run_dead cfg S w hd o.cached 0 hc.1 hc.2
+    · exact run_dead cfg S w hd o.fresh 0 hf.1 hf.2
+
+/-- **a dead link stays silent over the whole session** -/
+theorem session_dead (cfg : Cfg) (S : PrimKind → Prop) (w : World)
+    (hd : ∀ (p : Prim) (c : Cmd) (a : Ans), S p.kind → ∃ e, prim cfg p c a w = (.error e, w))
+    (read : Prog) (hr : Clean S read ∧ Quiet read) :
+    ∀ (ops : List SOp) (cached : Bool),
+    (∀ o ∈ ops, (Clean S o.fresh ∧ Quiet o.fresh) ∧ (Clean S o.cached ∧ Quiet o.cached)) →
+    (session cfg read ops cached w).2 = w := by
+  intro ops
+  induction ops with
+  | nil => intro _ _; rfl
+  | cons o os ih =>
+    intro cached hops
+    have ho := hops o List.mem_cons_self
+    unfold session
+    simp only []
+    rw [stepOp_dead cfg S w hd read o cached hr ho.1 ho.2]
+    exact ih _ (fun o' hm' => hops o' (List.mem_cons_of_mem _ hm'))
+
 
 end NfcVerif.Retry
